@@ -8,7 +8,19 @@ func verifHarness_C14_routerRepeat() {
 	pat := verifC02Pool[verifCfg()%len(verifC02Pool)]
 	verifAssume(!verifIsStaticPattern(pat))
 	r := New(EnableCaching)
+	// what the router answered before must not matter: with the not-allowed probing on, it
+	// has already answered a not-found, a method-not-allowed and a HEAD request
+	warmed := verifChoice("history", 2) == 1
+	if warmed {
+		r = New(EnableCaching, HandleMethodNotAllowed)
+		r.POST("/only/post", verifNop)
+	}
 	r.GET(pat, verifNop)
+	if warmed {
+		r.QuickMatch("GET", "/no/such/route/at/all")
+		r.QuickMatch("GET", "/only/post")
+		r.QuickMatch("HEAD", "/no/such/route/at/all")
+	}
 	p := verifNormalPath("p", verifParam("L"))
 	empty := r.cachedRoutes.Len()
 	got, _, _ := r.QuickMatch("GET", p)
@@ -18,7 +30,9 @@ func verifHarness_C14_routerRepeat() {
 	// stated behaviourally (independent of the key's spelling): the match stored one
 	// entry, and the immediate repeat is answered from it without storing another
 	before := r.cachedRoutes.Len()
-	verifAssert(empty == 0 && before == 1, "a dynamic match stores exactly one entry")
+	// (the earlier requests are longer than p, so p's entry is new; they may have left entries of
+	// their own when the pattern matches them too)
+	verifAssert((warmed || empty == 0) && before == empty+1, "a dynamic match stores exactly one entry")
 	got2, _, _ := r.QuickMatch("GET", p)
 	verifAssert(got2 != nil, "the repeat is answered")
 	verifAssert(got2 != got, "the repeat is answered from the cache (a cached copy, not the table's route)")
